@@ -7,7 +7,9 @@ import (
 
 	"gverif/core"
 	"gverif/engine/args"
+	"gverif/engine/config"
 	"gverif/engine/stride"
+	"gverif/engine/twin"
 )
 
 type property struct {
@@ -86,7 +88,7 @@ var blasArgs = args.Options{RecvType: "Implementation"}
 
 func init() {
 	properties["C01"] = &property{
-		explanation: "Decides structural necessary conditions of C01 for all BLAS code paths: STRIDE — no operand of blas/gonum, the blas64/blas32/cblas* wrappers or the internal/asm Go kernels is indexed, sliced or forwarded with another operand's ld/inc/Stride (units inferred by flow-insensitive fixpoint over integer locals). Does not decide arithmetic correctness of the loop nests, rounding, or assembly semantics.",
+		explanation: "Decides structural necessary conditions of C01 for all BLAS code paths: TWIN.generated — every generated float32/complex64 routine (and sgemm, the dot variants, the blas32/cblas64/cblas128 conversions), none of which has tests of its own at Level 2/3, is node for node the image of its tested float64/complex128 source under the generator's renaming; STRIDE — no operand of blas/gonum, the blas64/blas32/cblas* wrappers or the internal/asm Go kernels is indexed, sliced or forwarded with another operand's ld/inc/Stride (units inferred by flow-insensitive fixpoint over integer locals). Does not decide arithmetic correctness of the loop nests, rounding, or assembly semantics.",
 		assumptions: commonAssumptions,
 		run: func(tier string, res *core.Result) {
 			r := stride.Run(def, core.Pkgs(blasPkgs...))
@@ -94,6 +96,20 @@ func init() {
 			r.Floor("call_pairs", 200)
 			r.Floor("unit_typed_locals", 400)
 			res.Merge(r)
+			// the pure-Go kernels are only compiled under noasm/safe
+			rn := stride.Run(core.Config{Tags: "noasm"}, core.Pkgs("./internal/asm/f64", "./internal/asm/f32", "./internal/asm/c128", "./internal/asm/c64"))
+			rn.Floor("index_sites", 100)
+			res.Merge(rn)
+			t := twin.Run(twin.Which{Generated: true, Prefixes: []string{"blas/"}})
+			t.Floor("generated_file_pairs", 17)
+			t.Floor("twin_declaration_pairs", 140)
+			t.Floor("twin_nodes_unified", 40000)
+			res.Merge(t)
+			if tier == "thorough" {
+				for _, c := range []core.Config{{Tags: "safe"}, {GOARCH: "arm64"}, {GOARCH: "386"}} {
+					res.Merge(stride.Run(c, core.Pkgs(blasPkgs...)))
+				}
+			}
 		},
 	}
 }
@@ -141,13 +157,57 @@ func init() {
 		},
 	}
 	properties["C04"] = &property{
-		explanation: "Decides a structural necessary condition of C04 for every function of mat: STRIDE — every Data[...] index/slice and every (Data, Stride) pair handed to blas64/lapack64 uses the stride of the same matrix (views with Stride > Cols are addressed with their own stride everywhere). Does not decide agreement of specialised dispatch arms with the generic At loop.",
+		explanation: "Decides structural necessary conditions of C04 for every function of mat: TWIN.sync — the receiver-sizing pairs reuseAsNonZeroed/reuseAsZeroed ('must be kept in sync') of six types differ only by use/useZeroed and the final Zero(); TWIN.bounds — the bounds and default element accessors check the same guards and address the same Data element on every access path; CONFIG — mat type-checks with one API under bounds/safe; STRIDE — every Data[...] index/slice and every (Data, Stride) pair handed to blas64/lapack64 uses the stride of the same matrix (views with Stride > Cols are addressed with their own stride everywhere). Does not decide agreement of specialised dispatch arms with the generic At loop.",
 		assumptions: commonAssumptions,
 		run: func(tier string, res *core.Result) {
 			r := stride.Run(def, core.Pkgs("./mat"))
 			r.Floor("index_sites", 200)
 			r.Floor("literal_pairs", 40)
 			res.Merge(r)
+			t := twin.Run(twin.Which{Bounds: true, BoundsFamilies: []string{"mat-index"}, ReuseAs: true})
+			t.Floor("bounds_guard_sequences", 15)
+			t.Floor("reuseAs_sync_pairs", 5)
+			res.Merge(t)
+			cfgs := []core.Config{{}, {Tags: "bounds"}, {Tags: "safe"}}
+			if tier == "thorough" {
+				cfgs = append(cfgs, core.Config{Tags: "safe bounds"}, core.Config{GOARCH: "386"}, core.Config{GOARCH: "arm64"}, core.Config{Tags: "bounds", GOARCH: "386"})
+			}
+			res.Merge(config.Run(cfgs, []string{"./mat"}))
+			if tier == "thorough" {
+				res.Merge(stride.Run(core.Config{Tags: "bounds"}, core.Pkgs("./mat")))
+				res.Merge(stride.Run(core.Config{Tags: "safe"}, core.Pkgs("./mat")))
+			}
+		},
+	}
+}
+
+func init() {
+	properties["C08"] = &property{
+		explanation: "Decides the build-configuration clauses of C08 statically: CONFIG.build/.api — every package with tag- or arch-selected files (discovered by scanning //go:build lines; thorough: every package) loads and type-checks under {default, noasm, safe, bounds, tomita, debug} x {amd64, arm64, 386} and exports the same API in each, so the assembly, pure-Go and safe builds are interchangeable at the type level (the test suite compiles one configuration); TWIN.r3 — the safe and unsafe 3x3 builders of spatial/r3 (Eye, Skew, Mul, Rotation.Mat) store the identical expression to every element; STRIDE on the pure-Go kernels of internal/asm under default and noasm. Does NOT decide that assembly or a noasm loop equals the scalar definition, nor search/ordering helpers, norms or NaN handling (value-level).",
+		assumptions: commonAssumptions,
+		run: func(tier string, res *core.Result) {
+			pk, counts, err := config.TaggedPackages()
+			if err != nil {
+				res.Brokenf("scan: %v", err)
+			}
+			if len(pk) < 10 {
+				res.Brokenf("only %d packages with tag-selected files found (%v), expected at least 10", len(pk), counts)
+			}
+			if tier == "thorough" {
+				pk = []string{"./..."}
+			}
+			c := config.Run(config.Matrix(tier), pk)
+			c.Floor("configurations", 8)
+			c.Floor("package_api_comparisons", 80)
+			res.Merge(c)
+			t := twin.Run(twin.Which{R3: true})
+			t.Floor("r3_elements_compared", 36)
+			res.Merge(t)
+			asm := []string{"./internal/asm/f64", "./internal/asm/f32", "./internal/asm/c128", "./internal/asm/c64"}
+			for _, cfg := range []core.Config{{}, {Tags: "noasm"}} {
+				r := stride.Run(cfg, core.Pkgs(asm...))
+				res.Merge(r)
+			}
 		},
 	}
 }
@@ -160,6 +220,19 @@ func dump(argv []string) {
 	switch argv[0] {
 	case "stride":
 		res = stride.Run(def, core.Pkgs(argv[1:]...))
+	case "config":
+		pk, _, _ := config.TaggedPackages()
+		fmt.Println(pk)
+		tier := "quick"
+		if len(argv) > 1 {
+			tier = argv[1]
+		}
+		if tier == "thorough" {
+			pk = []string{"./..."}
+		}
+		res = config.Run(config.Matrix(tier), pk)
+	case "twin":
+		res = twin.Run(twin.Which{Generated: true, Bounds: true, ReuseAs: true, R3: true})
 	case "args":
 		if argv[1] == "./lapack/gonum" {
 			res = args.Run(def, core.Pkgs(argv[1:]...), lapackArgs)
